@@ -13,6 +13,7 @@ from .. import ag_common as AG
 
 KINDS = {"leaf_grad": "C03", "once": "C03", "order": "C03", "error": "C03", "value": "C03"}
 ALL = {"add", "mul", "sub", "neg", "sq", "sum", "idx", "stack", "unbind", "clone", "gather"}
+CORE = {"add", "mul", "sub", "sq", "sum", "idx", "stack", "unbind"}      # (the thorough tier's deepest instances: 8 operators keep TLC within its heap)
 VS = [dict(vec=True, rg=True), dict(vec=False, rg=True)]
 SS = [dict(vec=False, rg=True), dict(vec=False, rg=False)]
 VN = [dict(vec=True, rg=False), dict(vec=False, rg=True)]
@@ -37,14 +38,23 @@ def run(ctx):
                 # an earlier result (root or interior of a previous backward) reused inside a new graph that is differentiated again
                 ("prog-reuse", dict(MaxNodes=4, GAlpha={-2}, Ops={"add", "mul"}, MaxHist=4, MaxBackward=2, Acts={"op", "bw"}, InitLeaves=SS), 40000),
                 # a vector consumed through a multi-output / indexing operator AND by another operator (fan-out across unbind)
+                # tensors / parameters constructed from an existing leaf are leaves of their own
+                ("prog-copy", dict(MaxNodes=4, GAlpha={-2, 3}, Ops={"add", "mul"}, UseVec=True, MaxHist=4, MaxBackward=1,
+                                   Acts={"op", "bw", "copyleaf"}, InitLeaves=[dict(vec=True, rg=True)]), 40000),
                 ("prog-fanout", dict(MaxNodes=5, GAlpha={-2, 3}, Ops={"unbind", "idx", "gather", "sum", "add"}, UseVec=True, MaxHist=4, MaxBackward=1,
                                      Acts={"op", "bw"}, InitLeaves=[dict(vec=True, rg=True)]), 30000)]
         sims = [("sim", dict(MaxNodes=9, GAlpha={1, -2, 3}, Ops=ALL, UseVec=True, MaxHist=9, MaxBackward=1, Acts={"op", "bw"},
                              InitLeaves=[dict(vec=False, rg=True), dict(vec=True, rg=True), dict(vec=False, rg=False)]), 80)]
     else:
-        AG.model_check(rep, "AG_prog_mc", dict(MaxNodes=5, GAlpha={-2}, Ops=ALL, UseVec=True, MaxBackward=1, Acts={"op", "bw"}, InitLeaves=VS), timeout=10000)
+        AG.model_check(rep, "AG_prog_mc4", dict(MaxNodes=4, GAlpha={-2}, Ops=ALL, UseVec=True, MaxBackward=1, Acts={"op", "bw"}, InitLeaves=VS), timeout=10000)
+        AG.model_check(rep, "AG_prog_mc", dict(MaxNodes=5, GAlpha={-2}, Ops=CORE, UseVec=True, MaxBackward=1, Acts={"op", "bw"}, InitLeaves=VS), timeout=10000)
         AG.model_check(rep, "AG_prog_mc_scalar6", dict(MaxNodes=6, GAlpha={-2}, Ops={"add", "mul"}, MaxBackward=1, Acts={"op", "bw"}, InitLeaves=SS), timeout=10000)
-        runs = [("prog-vec", dict(MaxNodes=5, GAlpha={-2, 3}, Ops=ALL, UseVec=True, MaxHist=4, MaxBackward=1, Acts={"op", "bw"}, InitLeaves=VS), 800000),
+        runs = [("prog-vec", dict(MaxNodes=5, GAlpha={-2, 3}, Ops=CORE, UseVec=True, MaxHist=4, MaxBackward=1, Acts={"op", "bw"}, InitLeaves=VS), 800000),
+                ("prog-vec-all", dict(MaxNodes=4, GAlpha={-2, 3}, Ops=ALL, UseVec=True, MaxHist=3, MaxBackward=1, Acts={"op", "bw"}, InitLeaves=VS), None),
+                ("prog-copy", dict(MaxNodes=5, GAlpha={-2, 3}, Ops={"add", "mul"}, UseVec=True, MaxHist=5, MaxBackward=1,
+                                   Acts={"op", "bw", "copyleaf"}, InitLeaves=[dict(vec=True, rg=True)]), 400000),
+                ("prog-gather", dict(MaxNodes=5, GAlpha={-2, 3}, Ops={"gather", "idx", "sum", "add", "mul"}, UseVec=True, MaxHist=4, MaxBackward=1,
+                                     Acts={"op", "bw"}, InitLeaves=[dict(vec=True, rg=True)]), 400000),
                 ("prog-vec-nograd", dict(MaxNodes=4, GAlpha={3, -1}, Ops=ALL, UseVec=True, MaxHist=3, MaxBackward=1, Acts={"op", "bw"}, InitLeaves=VN), None),
                 ("prog-scalar5", dict(MaxNodes=5, GAlpha={-2}, Ops={"add", "mul", "sub"}, MaxHist=4, MaxBackward=1, Acts={"op", "bw"}, InitLeaves=SS), None),
                 ("prog-reuse", dict(MaxNodes=5, GAlpha={-2}, Ops={"add", "mul"}, MaxHist=5, MaxBackward=2, Acts={"op", "bw"}, InitLeaves=SS), 400000),
